@@ -1483,7 +1483,13 @@ def check_truncated(F, ctx, prog, kind, variant, case, S, r, E, xyz0, rep, cut, 
             left.append(f"{name} ({describe_mismatch(got, fin, earlier)})")
         if not (close(r["coords"], np.array(xyz0), atol=1e-10) or close(r["coords"], ec, atol=1e-10)):
             left.append(f"coordinates ({describe_mismatch(r['coords'], ec, E['all_xyz'][:-1])})")
-        if left:
+        if left and prog in ("qchem", "xtb", "mopac"):
+            # these programs' termination tests do not notice the truncation (known), so properties are set before a
+            # later parser fails: same root cause, its own input class
+            F.add(f"{P}.terminated_normally_in|truncated-output-accepted:error-raised-after-values-set",
+                  f"{prog} {kind} ({variant}) output truncated after {cut} lines of {target} passes the termination test; "
+                  f"{r['exc']} is raised by a later parser but the species already holds: " + "; ".join(left), rep)
+        elif left:
             F.add("Calculation.set_output_filename|rejected-output-leaves-non-final-values-on-species",
                   f"{prog} {kind} ({variant}) output truncated after {cut} lines of {target}: {r['exc']} is raised, but the species "
                   "passed in has been modified (set_properties runs before the termination test) and now holds values that are "
@@ -2186,7 +2192,9 @@ def stream_xyz(ctx, F, sizes, n_per):
                           f"{reader} accepts the malformed file '{name}' ({len(lines)} lines, declared {lines[0] if lines else '-'} atoms) "
                           f"and returns {out[1]} atoms per frame", rep)
                 elif out[0] != "format-error":
-                    if name.startswith("title-"):
+                    if name.startswith("title-") and reader == "Molecule(xyz)" and out[0] == "ValueError":
+                        pass        # Molecule._init_xyz_file documents "Raises: (ValueError)"
+                    elif name.startswith("title-"):
                         F.add("xyz-title|malformed-value-undocumented-error",
                               f"{reader}: title line {lines[1]!r} ({name[6:]}): the value cannot be converted and a bare "
                               f"{out[0]} ({out[1]}) escapes instead of XYZfileWrongFormat (_set_attr_from_title_line / "
@@ -2784,7 +2792,7 @@ MANIFEST = {
     "technique": "Coq proof over a hand-written executable model of the output layouts and parser reassembly rules (pinned to the "
                  "source by 77 function hashes) + correspondence on synthesised outputs whose layouts are validated against the real "
                  "output files, + implementation oracles on real and synthesised outputs",
-    "level_text": ("Machine-checked theorems (coq/C18/Props.v, 23, closed under the global context) for EVERY matrix size and block "
+    "level_text": ("Machine-checked theorems (coq/C18/Props.v, 22, closed under the global context) for EVERY matrix size and block "
                    "width: column-block wrapping is lossless (w>=1 incl. w not dividing n); the code's own reassembly rules of ORCA "
                    "(.hess: skip-shorter-line + hessian[i mod 3N] += block, and the $end test computed over the lines), Q-Chem "
                    "(hess[j] += block until 3Nx3N) and NWChem (indexed lower-triangular blocks) return the printed matrix; Gaussian "
@@ -2794,7 +2802,7 @@ MANIFEST = {
                    "single/multi-frame line structure round trip with 5-decimal rounding, whole-key StringDict lookup (sound and "
                    "complete), malformed xyz files rejected with XYZfileWrongFormat by both readers whenever the title values "
                    "convert; statements false of the faithful model are *_refuted witnesses (solvent name with a blank, title value "
-                   "that does not convert)."),
+                   "that does not convert is XYZfileWrongFormat since f5575d0; unknown solvent = SolventNotFound)."),
     "level_note": ("PARTIAL. Theorems are about token lines (str.split) and abstract values. Named *_partial / conditional: "
                    "last_step_used_partial is about the loop shape only (which parsers have it is tied by check_scan; XTB structure, "
                    "MOPAC energy, NWChem Hessian take the first occurrence); xyz_title_lookup(_min) assume the decidable search "
